@@ -128,7 +128,7 @@ def e3_table(alphabet, L):
 
 
 def e3_configs(tier):
-    doms = [("ab", 5)] if tier == "quick" else [("ab", 7), ("abc", 4)]
+    doms = [("ab", 6)] if tier == "quick" else [("ab", 8), ("abc", 5)]
     for alphabet, L in doms:
         for q in (1, 2, 3):
             for padding in (True, False):
@@ -145,7 +145,7 @@ class E3(Component):
     rule = "every configuration over the full cross table of short strings"
 
     def bounds(self, tier):
-        return {"domains": [["ab", 5]] if tier == "quick" else [["ab", 7], ["abc", 4]],
+        return {"domains": [["ab", 6]] if tier == "quick" else [["ab", 8], ["abc", 5]],
                 "q": [1, 2, 3], "padding": [True, False], "threshold": [0, 1, 2, 3],
                 "ops": ["<=", "<", "="]}
 
